@@ -46,6 +46,7 @@ func getSwapInSenderStates() States {
 				Event_ActionSucceeded: State_SwapInSender_AwaitAgreement,
 				Event_ActionFailed:    State_SwapCanceled,
 			},
+			FailOnrecover: true,
 		},
 		State_SwapInSender_AwaitAgreement: {
 			Action: &NoOpAction{},
@@ -54,7 +55,9 @@ func getSwapInSenderStates() States {
 				Event_OnTimeout:                        State_SendCancel,
 				Event_SwapInSender_OnAgreementReceived: State_SwapInSender_BroadcastOpeningTx,
 				Event_OnInvalid_Message:                State_SendCancel,
+				Event_ActionFailed:                     State_SendCancel,
 			},
+			FailOnrecover: true,
 		},
 		State_SwapInSender_BroadcastOpeningTx: {
 			Action: &CheckPremiumAmount{next: &CreateAndBroadcastOpeningTransaction{}},
